@@ -661,7 +661,7 @@ func c14Random(r *gen.R) []c14Tx {
 				nextOutside++
 			}
 		}
-		if r.Chance(1, 40) { // the same outpoint twice in one transaction
+		if r.Chance(1, 150) { // the same outpoint twice in one transaction
 			t.Ins = append(t.Ins, t.Ins[r.Intn(len(t.Ins))])
 		}
 		r.Shuffle(len(t.Ins), func(a, b int) { t.Ins[a], t.Ins[b] = t.Ins[b], t.Ins[a] })
